@@ -8,6 +8,7 @@ the monitor life-cycle specification spec/conc/Monitor.tla, model-checked by TLC
 import json
 import os
 import random
+import re
 import subprocess
 import time
 
@@ -303,6 +304,34 @@ def c15_check(prop, tier, seed, replay):
                 if g >= 64:
                     part = part[:max(20, len(part) // 4)]
                 batches.append((part, g, procs))
+            # heavy calls under load: the network-simplex positioner on ~20 nodes / ~36 edges takes 0.1-0.5 s alone; 32-64 of them
+            # on 2 processors take many seconds each.  What a call returns must not depend on how long it was kept waiting
+            # (a wall-clock cut-off, a time-based seed, a busy-wait) - the slowest candidates of a sequential pass are used.
+            hv = []
+            for _ in range(24 if tier == "quick" else 60):
+                n, e = K.random_multigraph(rng, 18, 22, density=1.4, connected=True, loop_rate=0)
+                hv.append(K.case(n, e, p1="dfs", p2="ns", p4="nspos", p5="poly", fixed=[6, 4], ns=2, budgetms=120000))
+            dh = work.sub("heavy-pre")
+            cph, tph = os.path.join(dh, "cases.ndjson"), os.path.join(dh, "trace.ndjson")
+            with open(cph, "w") as fh:
+                for i, c in enumerate(hv):
+                    fh.write(json.dumps(dict(c, case=i + 1), separators=(",", ":")) + "\n")
+            core.run_cases(driver, "run", cph, tph, budget_ms=120000, mem_mb=2000)
+            times = {}
+            with open(tph) as fh:
+                for line in fh:
+                    if line.startswith('{"ev":"Return"'):
+                        mm = re.search(r'"case":(\d+).*"us":(\d+)', line)
+                        if mm:
+                            times[int(mm.group(1))] = int(mm.group(2))
+            # about 0.3 s alone (thorough: up to 1.5 s): heavy enough to be slowed down by seconds, cheap enough for a quick check
+            target = 300000 if tier == "quick" else 700000
+            ok_ = [k for k in times if 80000 <= times[k] <= (900000 if tier == "quick" else 3000000)]
+            slow = sorted(ok_, key=lambda k: abs(times[k] - target))[:(3 if tier == "quick" else 8)]
+            heavy = [dict(hv[k - 1], budgetms=0) for k in slow]
+            log("[C15] heavy batch: %d calls of %s ms each when run alone" % (len(heavy), [times[k] // 1000 for k in slow]))
+            if heavy:
+                batches.append((heavy, 32 if tier == "quick" else 64, 2))
         res_all = None
         races = []
         gid = 0
@@ -318,7 +347,8 @@ def c15_check(prop, tier, seed, replay):
                 for c in part:
                     fh.write(json.dumps(c, separators=(",", ":")) + "\n")
             env = dict(os.environ, GOMAXPROCS=str(procs), GORACE="halt_on_error=1 exitcode=66", GOTRACEBACK="all")
-            p = subprocess.run([race_driver, "conc", "-cases", cpath, "-out", tpath, "-g", str(g), "-seed", str(seed), "-budgetms", "0",
+            is_heavy = (not replay) and part and part[0].get("p4") == "nspos" and len(part) <= 8 and part[0]["n"] >= 18
+            p = subprocess.run([driver if is_heavy else race_driver, "conc", "-cases", cpath, "-out", tpath, "-g", str(g), "-seed", str(seed), "-budgetms", "0",
                                 "-memmb", "6000"], capture_output=True, text=True, env=env, timeout=3600)
             if p.returncode == 66 or "DATA RACE" in p.stderr:
                 races.append(dict(batch=bi, g=g, procs=procs, report=p.stderr[:6000], cases=part))
